@@ -74,11 +74,11 @@ def raw_values_for(t, n):
     return [vals[j % len(vals)] for j in range(n)]
 
 
-def custom_values_file(t, specs_props_channel, group_props=(), root_props=(), n=3, chunks=2):
+def custom_values_file(t, specs_props_channel, group_props=(), root_props=(), n=3, chunks=2, chan=None):
     """history whose channel A carries chosen small raw values (the encoder deals pool values, so the raw floats
     are read back from the reference interpretation instead of being chosen here)"""
     return [G.seg([('/', ['NODATA'], list(root_props)), ("/'g'", ['NODATA'], list(group_props)),
-                   (A, ['FULL', t, n], list(specs_props_channel)), (B, ['FULL', 'Int8', 1])], chunks=chunks)]
+                   (chan or A, ['FULL', t, n], list(specs_props_channel)), (B, ['FULL', 'Int8', 1])], chunks=chunks)]
 
 
 SMALL_POOL = {}
@@ -126,7 +126,7 @@ def check_channel_file(hist, specs, t, seed, scalers_expected=None):
             rawf = None
         else:
             sc = None
-            rawf = to_floats(t, ref.values[A])
+            rawf = to_floats(t, ref.values[[p_ for p_ in ref.order if H._is_channel(p_) and p_ != B][0]])
         memo_mag = [1.0]
 
         def run_eval():
@@ -149,7 +149,8 @@ def check_channel_file(hist, specs, t, seed, scalers_expected=None):
     r = H.guarded(lambda: H.TdmsFile.read(io.BytesIO(data)))
     if r[0] != 'ok':
         return 1, [('raised', 'eager read raised %s: %s' % (r[1], r[2]))]
-    ech = r[1]['g']['a']
+    ech = [c for c in r[1]['g'].channels() if c.path != B][0]
+    target = ech.path
     raw_before = _rawbytes(ech)
     r = H.guarded(lambda: ech[:])
     n += 1
@@ -204,7 +205,7 @@ def check_channel_file(hist, specs, t, seed, scalers_expected=None):
         return n, probs
     tf = r[1]
     try:
-        lch = tf['g']['a']
+        lch = [c for c in tf['g'].channels() if c.path != B][0]
         L = len(lch)
         fulln = H.norm_array(full)
         rr = H.guarded(lambda: H.norm_array(lch[:]))
@@ -267,10 +268,10 @@ def _worker(item):
                 res['samples'].append({'raw': t, 'specs': specs})
     elif kind == 'placement':
         for combo in payload:
-            for late in (False, True):
-                hist, expect_specs = placement_file(combo, late)
+            for late, chan in ((False, None), (True, None), (False, ODD)):
+                hist, expect_specs = placement_file(combo, late, chan)
                 n, probs = check_channel_file(hist, expect_specs, 'Int16', seed)
-                record({'part': 'placement', 'raw': 'Int16', 'combo': combo, 'late': late, 'seed': seed}, expect_specs, n, probs)
+                record({'part': 'placement', 'raw': 'Int16', 'combo': combo, 'late': late, 'odd_name': bool(chan), 'seed': seed}, expect_specs, n, probs)
     elif kind == 'deep':
         for specs, with_number in payload:
             for t in ('Int16', 'DoubleFloat'):
@@ -291,7 +292,10 @@ PLACE_OPTS = ['none', 'G1', 'G2', 'G1-scaled', 'G1-unscaled', 'G2-zero', 'G1-non
 PG = {'G1': [dict(LIN, src=None)], 'G2': [dict(POLY3, src=R.RAW), {'type': 'Add', 'left': 0, 'right': R.RAW}]}
 
 
-def placement_file(combo, late=False):
+ODD = "/'g'/'x/y''z'"   # a channel name with a slash and a quote
+
+
+def placement_file(combo, late=False, chan=None):
     """combo = (channel option, group option, root option) -> (history, specs expected to apply | None)"""
     levels = []
     expect = None
@@ -312,10 +316,10 @@ def placement_file(combo, late=False):
             expect = g
     if late:
         # the channel (with its own properties) comes first; the group and root objects only appear in a later, appended segment
-        hist = [G.seg([(A, ['FULL', 'Int16', 3], list(levels[0])), (B, ['FULL', 'Int8', 1])], chunks=2),
+        hist = [G.seg([(chan or A, ['FULL', 'Int16', 3], list(levels[0])), (B, ['FULL', 'Int8', 1])], chunks=2),
                 G.seg([("/'g'", ['NODATA'], list(levels[1])), ('/', ['NODATA'], list(levels[2]))], newlist=False)]
     else:
-        hist = custom_values_file('Int16', levels[0], levels[1], levels[2])
+        hist = custom_values_file('Int16', levels[0], levels[1], levels[2], chan=chan)
     return hist, expect
 
 
@@ -372,7 +376,7 @@ def replay(case):
         hist = custom_values_file(case['raw'], R.props_for(specs, number_of_scales=case['with_number']))
         n, probs = check_channel_file(hist, specs, case['raw'], case.get('seed', 0))
     elif case['part'] == 'placement':
-        hist, expect = placement_file(tuple(case['combo']), case.get('late', False))
+        hist, expect = placement_file(tuple(case['combo']), case.get('late', False), ODD if case.get('odd_name') else None)
         n, probs = check_channel_file(hist, expect, 'Int16', case.get('seed', 0))
     else:
         specs = case['specs']
